@@ -269,7 +269,29 @@ func genTemplate(r *core.Rng) *template {
 	g := &tgen{r: r, t: t, size: size, nextLocal: next, budget: 1 + r.Intn(8)}
 	// favourite var: most accesses reuse it
 	g.fav = r.Intn(len(t.Vars))
-	t.Steps = g.seq(0)
+	if t.InitPages == 0 && t.MaxPages > 0 && r.Bool() {
+		// an empty memory: the only thing that does not trap is a bulk operation
+		// of dynamic length 0; do one (it makes the function read the memory
+		// base while the memory is empty), grow, and go on
+		first := g.accessOf(opByName[[]string{"memory.copy", "memory.fill", "memory.init"}[r.Intn(3)]])
+		first.NKind = "p1"
+		if first.SrcVar < 0 {
+			first.SrcK = 0
+		}
+		g.budget--
+		grow := step{Kind: "call", Callee: []string{"grow", "hostgrow"}[r.Intn(2)], Pages: uint32(1 + r.Intn(int(t.MaxPages)))}
+		if t.Imported && r.Bool() {
+			grow.Callee = "xgrow"
+		}
+		if r.Chance(1, 4) {
+			grow = step{Kind: "grow", Pages: grow.Pages}
+		}
+		t.Steps = append(t.Steps, first, grow)
+		if g.budget <= 0 {
+			g.budget = 1
+		}
+	}
+	t.Steps = append(t.Steps, g.seq(0)...)
 	if t.NAccess == 0 {
 		t.Steps = append(t.Steps, g.access())
 	}
@@ -345,10 +367,14 @@ func (g *tgen) pickOp() *memOp {
 	}
 }
 
-func (g *tgen) access() step {
+func (g *tgen) access() step { return g.accessOf(nil) }
+
+func (g *tgen) accessOf(o *memOp) step {
 	r := g.r
 	t := g.t
-	o := g.pickOp()
+	if o == nil {
+		o = g.pickOp()
+	}
 	t.NAccess++
 	s := step{Kind: "access", ID: t.NAccess, Op: o.Name, Var: g.pickVar(), Res: -1, SrcVar: -1}
 	w := uint64(o.Width)
